@@ -64,12 +64,18 @@ Symmetric(r)     == \A i, j \in N(r) : r.m[i][j] = r.m[j][i]
 Transitive(r)    == \A i, j, k \in N(r) : (r.m[i][j] /\ r.m[j][k]) => r.m[i][k]
 SameJsonEqual(r) == \A i, j \in N(r) : JsonEq(r.encs[i], r.encs[j]) => r.m[i][j]     \* "two values that encode to the same JSON are equal"
 EqualSameJson(r) == \A i, j \in N(r) : r.m[i][j] => Eq(r.encs[i], r.encs[j])          \* "two equal values encode to the same JSON up to absent/null vs empty"
+\* dataquery variants: Equals takes the variants.Dataquery interface; nil and a value of another dataquery type are never equal
+\* (nilEq / foreignEq are empty for plain structs)
+NilUnequal(r)     == \A i \in DOMAIN r.nilEq : ~r.nilEq[i]
+ForeignUnequal(r) == \A i \in DOMAIN r.foreignEq : ~r.foreignEq[i]
 EqViolated(r) ==
        (IF Reflexive(r) THEN {} ELSE {"Reflexive"})
   \cup (IF Symmetric(r) THEN {} ELSE {"Symmetric"})
   \cup (IF Transitive(r) THEN {} ELSE {"Transitive"})
   \cup (IF SameJsonEqual(r) THEN {} ELSE {"SameJsonEqual"})
   \cup (IF EqualSameJson(r) THEN {} ELSE {"EqualSameJson"})
+  \cup (IF NilUnequal(r) THEN {} ELSE {"NilUnequal"})
+  \cup (IF ForeignUnequal(r) THEN {} ELSE {"ForeignUnequal"})
 
 Violated(r) == IF r.kind = "doc" THEN DocViolated(r) ELSE EqViolated(r)
 
